@@ -163,6 +163,13 @@ def rule_memoryless(repo, rule):
         if name in SANCTIONED:
             rule.ok(where, fi.fq, "state `%s` written in: %s" % (name, sites), SANCTIONED[name])
             continue
+        if {f.qual for f, _n, _h in stores[name]} <= {"add_guard", "restore_guard"} and all(
+                rf_.qual in ("add_guard", "restore_guard") for rf_, _t in reads.get(name, [])):
+            # a container only add_guard / restore_guard touch: it IS the saved guard state (a stack of it), judged by the
+            # guard-discipline rules (save/restore symmetry), not a memo of emitted constraints
+            rule.ok(where, fi.fq, "state `%s` written in: %s" % (name, sites), "the saved guard state itself, kept as a stack "
+                    "(restored exactly: guard-discipline rules)")
+            continue
         if name not in reads:
             rule.note(where, fi.fq, "state `%s` written in: %s" % (name, sites), "persistent state that no decision reads")
             continue
